@@ -15,14 +15,26 @@ VARIANTS = [
     {"radii": "vdw_covalent", "bond_threshold": 0.65, "seed": 11},
     {"radii": "custom", "bond_threshold": 0.65},
     {"radii": "custom", "bond_threshold": 0.5, "seed": 5},
+    {"radii": "custom_wide", "bond_threshold": 0.65},
+    {"radii": "custom_wide", "bond_threshold": 0.9, "seed": 3},
 ]
 
 
 def jobs_for(tier):
     fam = [x for x in structures.c01_family(tier) if x[0] not in ("gas", "degen", "mol")]
     fam += [x for x in structures.c01_family(tier) if x[0] == "gas"][:6]
+    # small two-species films over large slabs: the clusters' index lists are then not ascending (they come out of Python sets),
+    # atoms renumbered at random
+    films = [("film", {"el": el, "n": n, "layers": lay, "A": A, "X": X, "m": m, "gap": 4.5, "pbc": pbc, "i": i})
+             for i, (el, n, lay, A, X, m, pbc) in enumerate([("Cu", 6, 6, "Mg", "O", 6, (True, True, True)), ("Al", 6, 4, "Na", "Cl", 6, (True, True, False)),
+                                                              ("Cu", 7, 4, "Ca", "O", 7, (True, True, True)), ("Ag", 6, 6, "K", "F", 6, (True, True, True))])]
+    fam = films[:2 if tier == "quick" else 4] + fam
     jobs = []
     for k, (kind, desc) in enumerate(fam):
+        if kind == "film":
+            for params in (VARIANTS[8], VARIANTS[6]) if tier == "thorough" else (VARIANTS[8],):
+                jobs.append((kind, desc, params, {"rigid": True, "dims": True, "rerun": False, "shared_history": False}))
+            continue
         vs = [VARIANTS[k % len(VARIANTS)]] if tier == "quick" else [VARIANTS[k % len(VARIANTS)], VARIANTS[(k + 3) % len(VARIANTS)]]
         for params in vs:
             jobs.append((kind, desc, params, {"rigid": k % 2 == 0, "dims": True, "rerun": False, "shared_history": k % 3 == 1 or desc.get("ads") == desc.get("el") or kind in ("rsstack", "displaced")}))
